@@ -246,7 +246,11 @@ func kindType(k string) reflect.Type {
 	panic("harness: unknown kind " + k)
 }
 
-func srcStructField(f srcField) reflect.StructField {
+func srcStructField(f srcField) reflect.StructField { return srcStructFieldAt(f, false) }
+
+// underAlias: some enclosing struct carries an alias, so this field exists twice in the translated type (a shorthand, which
+// cannot be given a second spelling there, would collide with itself)
+func srcStructFieldAt(f srcField, underAlias bool) reflect.StructField {
 	sf := reflect.StructField{Name: goName(f.Name)}
 	var tags []string
 	if f.Tag.Style != "none" && f.Tag.Style != "" {
@@ -264,6 +268,10 @@ func srcStructField(f srcField) reflect.StructField {
 	}
 	if len(f.Alias) > 0 {
 		tags = append(tags, fmt.Sprintf(`dialsalias:"%s"`, strings.Join(f.Alias, "_")))
+		if f.Nest == "" && f.ID%2 == 0 && !underAlias {
+			// an aliased leaf that also has a pflag shorthand (and, as required then, a shorthand for the alias)
+			tags = append(tags, fmt.Sprintf(`dialspflagshort:"%c" dialspflagshortalias:"%c"`, 'a'+rune(f.ID%26), 'A'+rune(f.ID%26)))
+		}
 	}
 	sf.Tag = reflect.StructTag(strings.Join(tags, " "))
 	switch f.Nest {
@@ -272,7 +280,7 @@ func srcStructField(f srcField) reflect.StructField {
 	default:
 		var subs []reflect.StructField
 		for _, s := range f.Sub {
-			subs = append(subs, srcStructField(s))
+			subs = append(subs, srcStructFieldAt(s, underAlias || len(f.Alias) > 0))
 		}
 		st := reflect.StructOf(subs)
 		switch f.Nest {
@@ -599,6 +607,15 @@ func (r *srcRun) guard(src string, f func()) {
 	defer func() {
 		if rec := recover(); rec != nil {
 			r.add("C16", src, "panic: %v", rec)
+			if src == "flag" || src == "pflag" {
+				for _, l := range r.c.Expect.Leaves {
+					if len(l.FlagAlias) > 0 {
+						// the flag source of a type with aliased fields cannot even be built / asked for its value
+						r.add("C14", src, "panic: %v", rec)
+						break
+					}
+				}
+			}
 			if strings.HasPrefix(src, "transformer:") {
 				// a bare mangler chain that cannot translate / reverse-translate a supported type is also not lossless
 				r.add("C10", src, "panic: %v", rec)
